@@ -1,6 +1,7 @@
 (* Properties/C08.v — Run-space expansion yields exactly the documented ordered list of runs. *)
 From Coq Require Import List String ZArith NArith Bool Arith Permutation Sorted.
 From SV Require Import Common.Prelude Model.RunSpace Gen.RunSpaceGen Proofs.RunSpace.
+From SV Require Model.Loader Proofs.Loader Gen.LoaderGen.
 Import ListNotations.
 Local Open Scope string_scope.
 
@@ -261,6 +262,42 @@ Example ex_eager_cost_grows :
         [mkBlock Combinatorial [("a", [VInt 1; VInt 2; VInt 3]); ("b", [VInt 1; VInt 2; VInt 3])] None]))) = 18%N.
 Proof. reflexivity. Qed.
 
+(* ---------- the specification as WRITTEN (Model/Loader.v = _parse_run_space_block): what the expansion is defined on is what the
+   loader reads back, whether every member is written or every member holding its documented default is left out.
+   The loader's defaults are read from load_pipeline_from_yaml.py on this run and must be the documented ones (and the ones
+   schema.py gives a specification built through the API): hard obligations. ---------- *)
+Lemma gen_loader_translated : LoaderGen.translation_failed = false.
+Proof. reflexivity. Qed.
+Lemma gen_loader_defaults_documented : LoaderGen.impl = Loader.documented.
+Proof. reflexivity. Qed.
+Lemma gen_loader_schema_agrees : LoaderGen.schema_agrees = true.
+Proof. reflexivity. Qed.
+
+Theorem C08_written_specification_is_read_back : forall sp dry,
+  Loader.load LoaderGen.impl (Loader.write_full sp dry) = (sp, dry) /\
+  Loader.load LoaderGen.impl (Loader.write_minimal sp dry) = (sp, dry).
+Proof.
+  intros sp dry. rewrite gen_loader_defaults_documented. split.
+  - apply Proofs.Loader.load_write_full.
+  - apply Proofs.Loader.load_write_minimal.
+Qed.
+(* ... hence both spellings expand to the same runs *)
+Corollary C08_spellings_expand_alike : forall sp dry,
+  expand impl (fst (Loader.load LoaderGen.impl (Loader.write_minimal sp dry))) =
+  expand impl (fst (Loader.load LoaderGen.impl (Loader.write_full sp dry))).
+Proof. intros sp dry. destruct (C08_written_specification_is_read_back sp dry) as [F M]. rewrite F, M. reflexivity. Qed.
+(* a loader whose source default follows the enclosing block reads another specification than the one written *)
+Theorem C08_loader_source_mode_refuted_when :
+  Loader.d_source_mode LoaderGen.impl = None ->
+  exists sp, fst (Loader.load LoaderGen.impl (Loader.write_minimal sp false)) <> sp.
+Proof. intros H. exists Proofs.Loader.follow_block_witness. apply Proofs.Loader.source_mode_refuted. exact H. Qed.
+Example ex_loader_witness_runs :      (* the witness: 2 aligned rows as written, 4 runs when the columns are multiplied out *)
+  option_map (@List.length run) (match expand impl Proofs.Loader.follow_block_witness with Ok r => Some r | Err _ => None end) = Some 2.
+Proof. vm_compute. reflexivity. Qed.
+
+Print Assumptions C08_written_specification_is_read_back.
+Print Assumptions C08_spellings_expand_alike.
+Print Assumptions C08_loader_source_mode_refuted_when.
 Print Assumptions C08_cap_rejects_all.
 Print Assumptions C08_cap_before_expansion_all.
 Print Assumptions C08_cap_rejection_builds_nothing.
